@@ -3,6 +3,7 @@ package main
 import (
 	"fmt"
 	"go/token"
+	"go/types"
 	"strings"
 
 	"golang.org/x/tools/go/ssa"
@@ -28,6 +29,8 @@ func runC11(c *Ctx) {
 	L.Rule("R-C11-GROW", "max-size refusal first (also before the no-op return); copy-before-free; storage sized by updated curSz; no-op on offset+n < curSz; growth amount floored by n last", 6)
 	L.Rule("R-C11-CODEC", "length prefix width agrees at all six sites and equals the big-endian uint64 codec width", 6)
 	L.Rule("R-C11-ITER", "SliceIterate skips only empty slices, propagates errors; Slice's next/-1 logic", 3)
+	L.Rule("R-C11-MAXSZ", "the limit Grow compares against is the very number given to WithMaxSize (the only writer of maxSz)", 1)
+	L.Rule("R-C11-SORTRANGE", "the sorter walks exactly the slices in [start,end): every offset it collects is behind `next < end`; chunks are consecutive offset pairs; sort splits [lo,hi] at mid and merges over offsets[lo]..offsets[hi]", 4)
 	L.Rule("R-C11-SORTCOPY", "sortSmall writes back exactly [start,end); merge copies the remainder", 2)
 
 	off := "fld[offset](p[0])"
@@ -500,6 +503,225 @@ func runC11(c *Ctx) {
 			}
 		}
 		L.Check(okLast, "R-C11-ITER", "Buffer.Slice#next", "next = start+sz, or −1 when that reaches the write offset", "Slice does not return next = −1 exactly when the next offset reaches b.offset", fn.Pos())
+	})
+
+	// ---- R-C11-MAXSZ
+	c.Group("R-C11-MAXSZ", "Buffer.maxSz#writers", func() {
+		var desc []string
+		ok := true
+		for _, fn := range P.SrcFuncs {
+			if fn.Pkg != P.Pkgs["z"] {
+				continue
+			}
+			tb := newTB(fn)
+			for _, st := range fieldStoresIn(fn, "Buffer", "maxSz") {
+				if fa, isFA := st.Addr.(*ssa.FieldAddr); isFA && baseIsFresh(fa.X) {
+					continue // literal in a constructor
+				}
+				v := tb.T(st.Val).String()
+				if fname(fn) == "z.Buffer.WithMaxSize" && v == "p[1]" {
+					desc = append(desc, fname(fn)+": maxSz = size")
+					continue
+				}
+				ok = false
+				L.Fail("R-C11-MAXSZ", "maxSz@"+fname(fn), "Buffer.maxSz is set to "+v+", not to the limit the caller gave to WithMaxSize: Grow compares offset+n (padding included) with this field, so the buffer grows beyond - or refuses before - the limit", st.Pos())
+			}
+		}
+		if ok {
+			L.Check(len(desc) == 1, "R-C11-MAXSZ", "Buffer.maxSz#writers", strings.Join(desc, "; ")+" (Grow's comparison against it: R-C11-GROW)", "no writer of Buffer.maxSz found", 0)
+		}
+	})
+
+	// ---- R-C11-SORTRANGE
+	walkRule := func(fn *ssa.Function, cons, recv string) {
+		// the offsets walk: next = start; for next >= 0 && next < end { collect next; _, next = Slice(next) }
+		tb := newTB(fn)
+		var walk *ssa.Call
+		for _, ci := range callsTo(fn, "z.Buffer.Slice") {
+			cl, ok := ci.(*ssa.Call)
+			if !ok {
+				continue
+			}
+			if _, isPhi := cl.Call.Args[1].(*ssa.Phi); isPhi && tb.T(cl.Call.Args[0]).String() == recv {
+				walk = cl
+			}
+		}
+		if walk == nil {
+			L.Undecided("R-C11-SORTRANGE", cons, "the offsets walk (a loop calling Slice(next) on the sorted buffer) was not recognised", fn.Pos())
+			return
+		}
+		next := walk.Call.Args[1].(*ssa.Phi)
+		var problems []string
+		fromStart, fromSlice := false, false
+		for _, e := range phiLeaves(next) {
+			switch {
+			case tb.T(e).String() == "p[1]":
+				fromStart = true
+			case tb.T(e).String() == "ext[1]("+tb.T(walk).String()+")":
+				fromSlice = true
+			default:
+				problems = append(problems, "next can be "+tb.T(e).String())
+			}
+		}
+		if !fromStart || !fromSlice {
+			problems = append(problems, "next is not φ(start, the next offset returned by Slice(next))")
+		}
+		nt := tb.T(next).String()
+		inRange := edgesWhere(fn, tb, "lt("+nt+",p[2])", nil, true)
+		nonNeg := edgesWhere(fn, tb, "le(c[0],"+nt+")", nil, true)
+		if len(inRange) == 0 || len(nonNeg) == 0 {
+			problems = append(problems, "the walk is not bounded by `next >= 0 && next < end`")
+		}
+		// every use of next other than the bound tests (collecting it, reading the slice at it) lies behind both tests
+		var uses []ssa.Instruction
+		for _, r := range *next.Referrers() {
+			switch x := r.(type) {
+			case *ssa.BinOp, *ssa.Phi:
+			case ssa.Instruction:
+				uses = append(uses, x)
+			}
+		}
+		if bad, path := reach(entryPos(fn), isAnyInstr(uses), nil, cutSet(inRange)); bad != nil && len(inRange) > 0 {
+			problems = append(problems, "an offset is collected / read without `next < end` (block path "+pathString(path)+"): slices beyond the end of the range are sorted into it and the copy-back truncates the result")
+		}
+		if bad, path := reach(entryPos(fn), isAnyInstr(uses), nil, cutSet(nonNeg)); bad != nil && len(nonNeg) > 0 {
+			problems = append(problems, "an offset is used without `next >= 0` (block path "+pathString(path)+")")
+		}
+		L.Check(len(problems) == 0, "R-C11-SORTRANGE", cons, "next = φ(start, Slice(next).next); every offset collected lies behind next >= 0 && next < end", strings.Join(problems, "; "), walk.Pos())
+	}
+	c.Group("R-C11-SORTRANGE", "sortHelper.sortSmall#walk", func() {
+		fn := P.Fn("z", "sortHelper", "sortSmall")
+		walkRule(fn, "sortHelper.sortSmall#walk", "fld[b](p[0])")
+	})
+	c.Group("R-C11-SORTRANGE", "Buffer.SortSliceBetween#walk", func() {
+		fn := P.Fn("z", "Buffer", "SortSliceBetween")
+		L.Analysed(fname(fn))
+		walkRule(fn, "Buffer.SortSliceBetween#walk", "p[0]")
+	})
+	c.Group("R-C11-SORTRANGE", "Buffer.SortSliceBetween#chunks", func() {
+		fn := P.Fn("z", "Buffer", "SortSliceBetween")
+		tb := newTB(fn)
+		var problems []string
+		calls := callsTo(fn, "z.sortHelper.sortSmall")
+		sorts := callsTo(fn, "z.sortHelper.sort")
+		if len(calls) != 1 || len(sorts) != 1 {
+			L.Fail("R-C11-SORTRANGE", "Buffer.SortSliceBetween#chunks", fmt.Sprintf("expected one sortSmall call in a loop and one final sort call, found %d and %d", len(calls), len(sorts)), fn.Pos())
+			return
+		}
+		call := calls[0].(*ssa.Call)
+		// sortSmall(left, off): off ranges over offsets[1:], left is the previous offset (offsets[0] first)
+		env := Env{}
+		offT := tb.T(call.Call.Args[2])
+		if !Match("idx(slice(?o,c[1],_,_),_)", offT, env) {
+			problems = append(problems, "the chunk end is "+offT.String()+", not an element of offsets[1:]")
+		} else {
+			left, isPhi := call.Call.Args[1].(*ssa.Phi)
+			okLeft := isPhi
+			if isPhi {
+				first, prev := false, false
+				for _, e := range left.Edges {
+					et := tb.T(e).String()
+					switch {
+					case et == "idx("+env["o"].String()+",c[0])":
+						first = true
+					case e == call.Call.Args[2] || et == offT.String():
+						prev = true
+					default:
+						okLeft = false
+					}
+				}
+				okLeft = okLeft && first && prev
+			}
+			if !okLeft {
+				problems = append(problems, "the chunk start is "+tb.T(call.Call.Args[1]).String()+", not φ(offsets[0], the previous chunk end): chunks would overlap or leave gaps")
+			}
+			var lp *rangeLoop
+			for _, l := range rangeLoopsOf(fn) {
+				l := l
+				if l.Blocks()[call.Block()] {
+					lp = &l
+				}
+			}
+			if lp == nil || !lp.Whole() {
+				problems = append(problems, "not every chunk is sorted (the loop over offsets[1:] can exit early)")
+			}
+			st := sorts[0].(*ssa.Call)
+			if tb.T(st.Call.Args[1]).String() != "c[0]" || tb.T(st.Call.Args[2]).String() != "sub(call[len]("+env["o"].String()+"),c[1])" {
+				problems = append(problems, "the merge phase is sort("+tb.T(st.Call.Args[1]).String()+", "+tb.T(st.Call.Args[2]).String()+"), not sort(0, len(offsets)-1)")
+			}
+			// the helper sorts this buffer, with these offsets and this comparison
+			var helper *ssa.Alloc
+			eachInstr(fn, func(in ssa.Instruction) {
+				if a, ok := in.(*ssa.Alloc); ok && recvName(a.Type()) == "sortHelper" {
+					if _, isStruct := a.Type().Underlying().(*types.Pointer).Elem().Underlying().(*types.Struct); isStruct {
+						helper = a
+					}
+				}
+			})
+			if helper == nil {
+				problems = append(problems, "no sortHelper literal found")
+			} else {
+				lf := litFields(helper)
+				get := func(f string) string {
+					if len(lf[f]) == 1 {
+						return tb.T(lf[f][0].Val).String()
+					}
+					return "<unset>"
+				}
+				if get("offsets") != env["o"].String() || get("b") != "p[0]" || get("less") != "p[3]" {
+					problems = append(problems, "sortHelper is built with offsets="+get("offsets")+" b="+get("b")+" less="+get("less"))
+				}
+			}
+			// offsets ends with `end`
+			endStored := false
+			eachInstr(fn, func(in ssa.Instruction) {
+				if s2, ok := in.(*ssa.Store); ok && tb.T(s2.Val).String() == "p[2]" {
+					if _, isIA := s2.Addr.(*ssa.IndexAddr); isIA {
+						endStored = true
+					}
+				}
+			})
+			if !endStored {
+				problems = append(problems, "`end` is never appended to the offsets: the last chunk has no upper bound")
+			}
+		}
+		L.Check(len(problems) == 0, "R-C11-SORTRANGE", "Buffer.SortSliceBetween#chunks", "sortSmall(offsets[i-1], offsets[i]) for every i ≥ 1, then sort(0, len(offsets)-1); offsets closed by end; helper wired to this buffer and comparison", strings.Join(problems, "; "), fn.Pos())
+	})
+	c.Group("R-C11-SORTRANGE", "sortHelper.sort", func() {
+		fn := P.Fn("z", "sortHelper", "sort")
+		L.Analysed(fname(fn))
+		tb := newTB(fn)
+		mid := "add(p[1],quo(sub(p[2],p[1]),c[2]))"
+		var problems []string
+		rec := callsTo(fn, "z.sortHelper.sort")
+		mg := callsTo(fn, "z.sortHelper.merge")
+		if len(rec) != 2 || len(mg) != 1 {
+			L.Fail("R-C11-SORTRANGE", "sortHelper.sort", fmt.Sprintf("expected two recursive calls and one merge, found %d and %d", len(rec), len(mg)), fn.Pos())
+			return
+		}
+		l, r := tb.T(rec[0].(*ssa.Call)).String(), tb.T(rec[1].(*ssa.Call)).String()
+		wantL := "call[z.sortHelper.sort](p[0],p[1]," + mid + ")"
+		wantR := "call[z.sortHelper.sort](p[0]," + mid + ",p[2])"
+		if !(l == wantL && r == wantR) && !(l == wantR && r == wantL) {
+			problems = append(problems, "the halves are "+l+" and "+r+", not sort(lo,mid) and sort(mid,hi) with mid = lo+(hi-lo)/2 (offsets are chunk boundaries: mid+1 would skip a chunk)")
+		}
+		loff, hoff := "idx(fld[offsets](p[0]),p[1])", "idx(fld[offsets](p[0]),p[2])"
+		m := mg[0].(*ssa.Call)
+		if got := termStrings(termsOf(tb, m.Call.Args)); got != "p[0], "+wantL+", "+wantR+", "+loff+", "+hoff {
+			problems = append(problems, "merge is called with ("+got+"), want (s, left half, right half, offsets[lo], offsets[hi])")
+		}
+		base := edgesWhere(fn, tb, "eq("+mid+",p[1])", nil, true)
+		if len(base) == 0 {
+			problems = append(problems, "no base case `lo == mid`")
+		} else if bad, _ := reach(entryPos(fn), isAnyInstr(append(rec, mg...)), nil, cutSet(edgesWhere(fn, tb, "eq("+mid+",p[1])", nil, false))); bad != nil {
+			problems = append(problems, "a single chunk (lo == mid) is split or merged again")
+		}
+		for _, rt := range returnsOf(fn) {
+			if got := tb.T(returnValues(rt)[0]).String(); got != "slice(fld[buf](fld[b](p[0])),"+loff+","+hoff+",_)" {
+				problems = append(problems, "returns "+got+", not b.buf[offsets[lo]:offsets[hi]]")
+			}
+		}
+		L.Check(len(problems) == 0, "R-C11-SORTRANGE", "sortHelper.sort", "mid = lo+(hi-lo)/2; sort(lo,mid), sort(mid,hi); merge over [offsets[lo],offsets[hi]); returns that range; base case lo == mid", strings.Join(problems, "; "), fn.Pos())
 	})
 
 	// ---- R-C11-SORTCOPY
